@@ -115,6 +115,20 @@ def replay_all(ctx, bs, family, threaded_groups=0):
 
 def cold_start(ctx, family):
     """fresh processes whose first use of the library is multi-threaded (one-time initialisation under a race)"""
+    # the design-level statement (spec/ColdStart.tla): build privately + publish atomically keeps every answer
+    # sequential; the in-place two-phase fill does not (negative test); somebody does get an answer (anti-vacuity)
+    cfg = core.cfg_of("ColdStart.cfg")
+    ctx.mc("ColdStart", cfg, label="lazy one-time initialisation under 3 threads: build privately, publish atomically")
+    st, tr = ctx.states, ctx.transitions
+    r = ctx.mc("ColdStart", cfg.replace("Deviations = {}", 'Deviations = {"inplace"}').replace("INVARIANT PublishedIsComplete\n", ""),
+               expect_ok=False, label="negative test: table published first and filled in place")
+    if "AnswersAreSequential" not in (r.invariant_violated or [""])[0]:
+        raise core.MachineryError("ColdStart negative test: the in-place design did not violate AnswersAreSequential")
+    r = ctx.mc("ColdStart", cfg.replace("INVARIANT AnswersAreSequential", "INVARIANT NobodyAnswered"), expect_ok=False,
+               label="anti-vacuity: some thread gets an answer")
+    if "NobodyAnswered" not in (r.invariant_violated or [""])[0]:
+        raise core.MachineryError("ColdStart anti-vacuity: no thread ever got an answer")
+    ctx.states, ctx.transitions = st, tr
     try:
         n = hdreplay.cold_start_threads(nproc=4 if ctx.quick else 40, nthreads=8, seed=ctx.seed)
         ctx.notes["cold_start_thread_answers_compared"] = n
